@@ -153,6 +153,15 @@ Proof.
   destruct H as [H1 H2]. repeat split; auto. destruct v; try discriminate H2; reflexivity.
 Qed.
 
+Lemma var_ok_starts v : var_ok v = true -> starts_name v = true.
+Proof. unfold var_ok. intros H. apply andb_true_iff in H. apply H. Qed.
+
+(* an expression that begins with a name is not of the form '(' exp ')' *)
+Lemma bracketed_name e more rest : starts_name e = true -> bracketed (raw e ++ more) rest = false.
+Proof.
+  unfold starts_name. destruct (raw e) as [|t r]; [discriminate|]. destruct t; try discriminate. reflexivity.
+Qed.
+
 Lemma more_vars_ok : forall vs n rest, length vs < n -> forallb var_ok vs = true ->
   (match rest with TAssign :: _ => True | _ => False end) ->
   more_vars n (flat_map (fun x => TComma :: raw x) vs ++ rest) = Ok (vs, rest).
@@ -163,7 +172,7 @@ Proof.
     destruct (var_ok_facts v Hv1) as (Hp & Hiv & Hl).
     cbn [flat_map]. cbn [app more_vars]. rewrite <- app_assoc.
     rewrite prefix_exact; auto.
-    + cbn [bind fst snd]. rewrite Hiv. rewrite IH; [reflexivity|simpl in Hn; lia|exact Hv2|exact Hr].
+    + cbn [bind fst snd]. rewrite Hiv. rewrite bracketed_name by (apply var_ok_starts; exact Hv1). cbn [negb andb]. rewrite IH; [reflexivity|simpl in Hn; lia|exact Hv2|exact Hr].
     + apply var_follow_nosuffix. destruct vs; cbn; [|exact I].
       destruct rest as [|t rr]; [contradiction|]. destruct t; try contradiction. exact I.
 Qed.
@@ -280,6 +289,7 @@ Lemma s_stat_name P ts : (exists k r, ts = TName k :: r) ->
       match fst x with
       | ECall _ _ _ _ => Ok (SCall (fst x), snd x)
       | EName _ | EIndex _ _ =>
+        if bracketed ts (snd x) then Err (snd x) else
         bind (more_vars (S (length ts)) (snd x)) (fun vs =>
           match snd vs with
           | TAssign :: r2 => bind (explist_at r2) (fun es => Ok (SAssign (fst x :: fst vs) (fst es), snd es))
@@ -376,7 +386,7 @@ Proof.
                     (flat_map (fun x : exp => TComma :: raw x) vs ++ TAssign :: raw_args es ++ rest) = Ok (vs, TAssign :: raw_args es ++ rest)).
     { apply more_vars_ok; [|exact Hvs|exact I]. rewrite !app_length.
       pose proof (flat_map_len (fun x : exp => TComma :: raw x) vs ltac:(intros; simpl; lia)). lia. }
-    destruct v; try discriminate Hiv; rewrite Hmv; cbn [bind fst snd];
+    destruct v; try discriminate Hiv; rewrite (bracketed_name _ _ _ Hsn); rewrite Hmv; cbn [bind fst snd];
       (rewrite explist_exact; [reflexivity|destruct es; [discriminate|congruence]|assumption|exact Hnc|apply follow_stop_exp; exact Hf]).
   - (* SCall *) intros e Hw n rest Hn Hf. destruct n; [lens Hn; lia|]. cbn [wf_stat] in Hw. unfold call_ok in Hw.
     apply andb_true_iff in Hw. destruct Hw as [Hw Hsn]. apply andb_true_iff in Hw. destruct Hw as [Hp Hc].
